@@ -615,6 +615,24 @@ func runC09(c *Ctx) {
 				return "specific", "gate arm asks the extended packet's readonly()"
 			}
 		}
+		// the extended packet's own classification folded into the arm: every value that can reach it is `true` or the
+		// specific packet's readonly()
+		if _, isPhi := val.(*ssa.Phi); isPhi || func() bool { cl, ok := val.(*ssa.Call); return ok && cl.Call.IsInvoke() }() {
+			asks, other := false, false
+			for _, l := range extendedArmLeaves(p, worker) {
+				if k, ok := l.v.(*ssa.Const); ok && k.Value != nil && k.Value.Kind() == constant.Bool && constant.BoolVal(k.Value) {
+					continue
+				}
+				if call, ok := l.v.(*ssa.Call); ok && call.Call.IsInvoke() && call.Call.Method.Name() == "readonly" {
+					asks = true
+					continue
+				}
+				other = true
+			}
+			if asks && !other {
+				return "specific", "gate arm asks the specific packet's readonly()"
+			}
+		}
 		return "?", "classification value not understood: " + val.String()
 	}
 	constReadonly := func(t types.Type) (bool, bool) {
@@ -845,8 +863,18 @@ func extractErrnoTable(p *Program) (map[string]int64, string) {
 //	     pre-empt the SSH_FX_OP_UNSUPPORTED reply.
 func checkExtendedReadonly(c *Ctx, prop string) {
 	p := c.P
+	// where the classification of an extended request is computed: the method readonly of the extended packet, or —
+	// when that method has been folded into the worker — the values that reach the worker's classification in the arm
+	// of *sshFxpExtendedPacket
 	m := p.Func("(*sshFxpExtendedPacket).readonly")
-	if m == nil || m.Blocks == nil {
+	var leaves []retLeaf
+	if m != nil && m.Blocks != nil {
+		leaves = returnLeaves(m, 0)
+	} else if worker := p.Func("(*Server).sftpServerWorker"); worker != nil {
+		m = worker
+		leaves = extendedArmLeaves(p, worker)
+	}
+	if m == nil || len(leaves) == 0 {
 		c.missing("R1", "(*sshFxpExtendedPacket).readonly")
 		return
 	}
@@ -888,7 +916,6 @@ func checkExtendedReadonly(c *Ctx, prop string) {
 	}
 	delegOK, unknownOK, sawNilCase := true, true, false
 	var why09, why19 string
-	leaves := returnLeaves(m, 0)
 	for _, l := range leaves {
 		st := state(edgeConds(l.block, l.pred))
 		if k, ok := l.v.(*ssa.Const); ok && k.Value != nil && k.Value.Kind() == constant.Bool {
@@ -958,4 +985,60 @@ func checkOpenfilePassthrough(c *Ctx, rule string) {
 			"(*Server).openfile changes the path, flag word or mode on the way to os.OpenFile: the open-flag table and the read-only gate, which look at the wire flags, no longer describe what is opened (e.g. O_CREATE added behind the gate)")
 	})
 	c.check(n == 1, rule, "openfile opens with os.OpenFile", p.Pos(fn.Pos()), "one os.OpenFile call", fmt.Sprintf("%d os.OpenFile calls in (*Server).openfile", n))
+}
+
+// extendedArmLeaves: the values the worker's read-only classification can take for an *sshFxpExtendedPacket, each with
+// the block and edge on which it is selected (for edgeConds), when no readonly() method of the extended packet exists.
+func extendedArmLeaves(p *Program, worker *ssa.Function) []retLeaf {
+	gv := requestSwitchValue(worker)
+	if gv == nil {
+		return nil
+	}
+	ext := p.NamedType(p.Sftp, "sshFxpExtendedPacket")
+	if ext == nil {
+		return nil
+	}
+	body, isDefault, _ := simulate(switchHead(worker, gv), types.NewPointer(ext))
+	if body == nil || isDefault {
+		return nil
+	}
+	// the classification: the bool phi that joins the arms (the one with the most edges whose block is dominated by no arm)
+	var cls *ssa.Phi
+	eachInstr(worker, func(in ssa.Instruction) {
+		ph, ok := in.(*ssa.Phi)
+		if !ok || !isBasicKind(types.Bool)(ph.Type()) || body.Dominates(ph.Block()) {
+			return
+		}
+		reaches := false
+		for _, pred := range ph.Block().Preds {
+			if body == pred || body.Dominates(pred) {
+				reaches = true
+			}
+		}
+		if reaches && (cls == nil || len(ph.Edges) > len(cls.Edges)) {
+			cls = ph
+		}
+	})
+	if cls == nil {
+		return nil
+	}
+	var out []retLeaf
+	seen := map[*ssa.Phi]bool{}
+	var expand func(v ssa.Value, b, pred *ssa.BasicBlock)
+	expand = func(v ssa.Value, b, pred *ssa.BasicBlock) {
+		if ph, ok := v.(*ssa.Phi); ok && !seen[ph] && (body == ph.Block() || body.Dominates(ph.Block())) {
+			seen[ph] = true
+			for k, e := range ph.Edges {
+				expand(e, ph.Block(), ph.Block().Preds[k])
+			}
+			return
+		}
+		out = append(out, retLeaf{v, b, pred})
+	}
+	for k, pred := range cls.Block().Preds {
+		if body == pred || body.Dominates(pred) {
+			expand(cls.Edges[k], cls.Block(), pred)
+		}
+	}
+	return out
 }
